@@ -221,47 +221,56 @@ Proof.
   intros H. unfold renv. rewrite lookup_app, (lookup_swap_gen env env_nodup ns p H). reflexivity.
 Qed.
 
-Lemma qname_ok_prefix q : qname_ok q = true ->
-  exists p, lookup_str (fst q) env = Some p /\ is_ncname p = true /\ p <> sXMLNS /\
-            tag_of env q = p ++ cCOLON :: snd q /\ is_ncname (snd q) = true.
+Lemma lookup_default_none : lookup_str [] renv = None.
 Proof.
-  unfold XmlTokProofs.qname_ok, XmlTokProofs.env_has. intros H. apply andb_true_iff in H as [H1 H2].
-  destruct (lookup_str (fst q) env) as [p|] eqn:E; [|discriminate].
-  exists p. repeat split; try assumption.
-  - apply lookup_in in E. now destruct (env_entry _ E) as (_ & Hx & _).
-  - unfold tag_of, prefix_of. now rewrite E.
+  unfold renv. rewrite lookup_app.
+  assert (H : forall l, (forall e, In e l -> In e env) -> lookup_str [] (map swap l) = None).
+  { induction l as [|[ns p] l IH]; intros Hl; [reflexivity|].
+    cbn [map swap fst snd lookup_str].
+    destruct (env_entry (ns, p) (Hl _ (or_introl eq_refl))) as (Hp & _ & _). cbn [snd] in Hp.
+    destruct p as [|c p']; [discriminate|]. cbn [str_eqb]. apply IH. intros e He. apply Hl. now right. }
+  rewrite (H env (fun e He => He)). reflexivity.
 Qed.
 
 Lemma split_tag q : qname_ok q = true ->
-  exists p, split_colon (tag_of env q) [] = (Some p, snd q) /\ lookup_str (fst q) env = Some p /\
-            is_ncname p = true /\ p <> sXMLNS.
+  exists po, split_colon (tag_of env q) [] = (po, snd q) /\ po <> Some sXMLNS.
 Proof.
-  intros H. destruct (qname_ok_prefix q H) as (p & Hl & Hp & Hx & Ht & Hn).
-  exists p. rewrite Ht, split_colon_app by now apply ncname_no_colon. auto.
+  intros H. destruct (tag_cases env q H) as [(E & -> & Hn & _)|(_ & p & Hl & Hp & -> & Hn)].
+  - exists None. split; [|discriminate]. now rewrite split_colon_none by now apply ncname_no_colon.
+  - exists (Some p). split.
+    + now rewrite split_colon_app by now apply ncname_no_colon.
+    + apply lookup_in in Hl. destruct (env_entry _ Hl) as (_ & Hx & _). cbn [snd] in Hx. congruence.
 Qed.
 
 Lemma resolve_att_tag q : qname_ok q = true -> resolve_att_name renv (tag_of env q) = Some q.
 Proof.
-  intros H. destruct (split_tag q H) as (p & Hs & Hl & Hp & Hx).
-  destruct (qname_ok_prefix q H) as (_ & _ & _ & _ & _ & Hn).
-  unfold resolve_att_name. rewrite Hs, Hp, Hn. cbn [andb]. rewrite (lookup_renv _ _ Hl).
-  now destruct q.
+  intros H. destruct (tag_cases env q H) as [(E & -> & Hn & _)|(_ & p & Hl & Hp & -> & Hn)].
+  - unfold resolve_att_name. rewrite split_colon_none by now apply ncname_no_colon.
+    cbn [app]. rewrite Hn. destruct q as [ns l]. cbn [fst snd] in *. now subst.
+  - unfold resolve_att_name. rewrite split_colon_app by now apply ncname_no_colon.
+    cbn [app]. rewrite Hp, Hn. cbn [andb]. rewrite (lookup_renv _ _ Hl). now destruct q.
 Qed.
 
 Lemma resolve_elem_tag q : qname_ok q = true -> resolve_elem_name renv (tag_of env q) = Some q.
 Proof.
-  intros H. destruct (split_tag q H) as (p & Hs & Hl & Hp & Hx).
-  destruct (qname_ok_prefix q H) as (_ & _ & _ & _ & _ & Hn).
-  unfold resolve_elem_name. rewrite Hs, Hp, Hn. cbn [andb]. rewrite (lookup_renv _ _ Hl).
-  now destruct q.
+  intros H. destruct (tag_cases env q H) as [(E & -> & Hn & _)|(_ & p & Hl & Hp & -> & Hn)].
+  - unfold resolve_elem_name. rewrite split_colon_none by now apply ncname_no_colon.
+    cbn [app]. rewrite Hn, lookup_default_none. destruct q as [ns l]. cbn [fst snd] in *. now subst.
+  - unfold resolve_elem_name. rewrite split_colon_app by now apply ncname_no_colon.
+    cbn [app]. rewrite Hp, Hn. cbn [andb]. rewrite (lookup_renv _ _ Hl). now destruct q.
 Qed.
 
 Lemma tag_not_decl q : qname_ok q = true -> is_decl (tag_of env q) = false.
 Proof.
-  intros H. destruct (split_tag q H) as (p & Hs & Hl & Hp & Hx).
-  unfold is_decl. rewrite Hs. apply orb_false_iff. split.
-  - apply str_eqb_neq. intros E. rewrite E in Hs. vm_compute in Hs. discriminate.
-  - now apply str_eqb_neq.
+  intros H. destruct (tag_cases env q H) as [(E & -> & Hn & Hx)|(_ & p & Hl & Hp & -> & Hn)].
+  - unfold is_decl. rewrite Hx, split_colon_none by now apply ncname_no_colon. reflexivity.
+  - unfold is_decl. rewrite split_colon_app by now apply ncname_no_colon. cbn [app].
+    apply orb_false_iff. split.
+    + apply str_eqb_neq. intros E.
+      assert (Hc : no_colon (p ++ cCOLON :: snd q) = true) by (rewrite E; reflexivity).
+      unfold no_colon in Hc. rewrite mem_cp_app_gen in Hc. cbn [mem_cp] in Hc.
+      change (cCOLON =? cCOLON) with true in Hc. cbn in Hc. now rewrite orb_true_r in Hc.
+    + apply lookup_in in Hl. destruct (env_entry _ Hl) as (_ & Hx & _). cbn [snd] in Hx. now apply str_eqb_neq.
 Qed.
 
 Lemma tag_inj q1 q2 : qname_ok q1 = true -> qname_ok q2 = true -> tag_of env q1 = tag_of env q2 -> q1 = q2.
@@ -348,7 +357,7 @@ Proof.
   - now apply raw_names_nodup.
   - intros x H1 H2. rewrite map_map in H1, H2.
     apply in_map_iff in H1 as [e [<- He]]. apply in_map_iff in H2 as [a [Ea Ha]].
-    rewrite forallb_forall in Hok. pose proof (split_tag _ (att_ok_q a (Hok a Ha))) as (p & Hs & _ & _ & Hx).
+    rewrite forallb_forall in Hok. pose proof (split_tag _ (att_ok_q a (Hok a Ha))) as (po & Hs & Hx).
     cbn [XmlTokProofs.raw_att fst] in Ea. rewrite Ea in Hs. rewrite split_decl in Hs. congruence.
 Qed.
 
